@@ -51,6 +51,21 @@ for k, v in G.items():
     c, text, note, tech, ref = T[k]
     T[k] = (c, text + v, note, tech, ref)
 
+# round h additions
+H = {
+ "C02": " Round h: core.commit hands every block to the application before it returns.",
+ "C03": " Round h: insertion-time code does not read the node's consensus progress (LastConsensusRound ...).",
+ "C05": " Round h: addTransactions queues every transaction it is given (no content filter); core.commit never withholds a block.",
+ "C07": " Round h: the store resolves a creator by its full public key (ByPubKey), not by the 32-bit id.",
+ "C10": " Round h: every success return of core.commit has processed the block's receipts.",
+ "C11": " Round h: every success return of core.commit has processed the block's receipts (a replayed database rebuilds the validator-set history only this way); every BadgerStore method reports the failures it tests.",
+ "C15": " Round h: ReadWireInfo rebuilds the event from the wire form it was given.",
+ "C16": " Round h: every BadgerStore method and closure returns an error on the failing edge of each error it tests (C16.dberrs); per-creator records keyed by the full public key.",
+}
+for k, v in H.items():
+    c, text, note, tech, ref = T[k]
+    T[k] = (c, text + v, note, tech, ref)
+
 NA = {
  "C06": "Liveness under fair gossip quantifies over unbounded fair schedules and asserts a bound on exchanges until idle; no clause is visible in the shape of the code (termination of virtual voting is semantic/probabilistic). Static analysis in reach cannot bound it (DESIGN.md §5).",
 }
